@@ -21,9 +21,14 @@ payload is the configured pattern."
 * where the kernel builds the IP header (IPv6 always; unprivileged UDP; TCP) the theorem states the
   exact socket calls: hop limit / TTL / TOS options, bind and destination addresses and ports and
   the octets handed to `send_to`.
-* nothing is partial.  Observations (not violations): a computed UDP checksum of 0x0000 is
-  transmitted as 0 (RFC 768 asks for 0xFFFF); with the Paris strategy the checksum *field* is the
-  sequence number by design, including 0.  The datagram still sums to 0xFFFF (`verifies`).
+* UDP over IPv6 is decoded with `decodeUDP6`, which rejects a zero checksum field (RFC 8200
+  §8.1); the code maps a computed 0x0000 to 0xFFFF (`makeUdp`, `makeUdp_nonzero6`,
+  `verifies_allones`).  Over IPv4 a computed 0x0000 is sent as 0 ("no checksum", RFC 768) and
+  `decodeUDP` accepts it.
+* nothing is partial, with one *stated* residual: with the Paris strategy the checksum *field* is
+  the sequence number by design, so over IPv6 the datagram for sequence 0 is invalid
+  (`udp_v6_paris` has the hypothesis `p.seq ≠ 0`; `udp_v6_paris_sequence_zero` shows it is
+  necessary).  The datagram still sums to 0xFFFF (`verifies`).
 -/
 namespace TV.Props.C11
 open TV TV.Wire TV.Rfc1071 TV.Decode
@@ -223,7 +228,7 @@ theorem udp_v6_raw (c : ChanCfg) (hc : c.AddrOk) (hv : c.v6 = true) (hp : c.prot
         .sendTo (udpPkt p.srcPort p.destPort ck (List.replicate (c.packetSize - 48) c.pattern)) c.dst 0] ∧
       (udpPkt p.srcPort p.destPort ck (List.replicate (c.packetSize - 48) c.pattern)).length + 40 =
         c.packetSize ∧
-      decodeUDP (udpPkt p.srcPort p.destPort ck (List.replicate (c.packetSize - 48) c.pattern)) =
+      decodeUDP6 (udpPkt p.srcPort p.destPort ck (List.replicate (c.packetSize - 48) c.pattern)) =
         some ({ srcPort := p.srcPort, dstPort := p.destPort, length := 8 + (c.packetSize - 48),
                 checksum := ck }, List.replicate (c.packetSize - 48) c.pattern) ∧
       verifies (pseudoHdr c 17 (8 + (c.packetSize - 48)) ++
@@ -237,7 +242,9 @@ theorem udp_v6_raw (c : ChanCfg) (hc : c.AddrOk) (hv : c.v6 = true) (hp : c.prot
   refine ⟨ck, ?_, by omega, ?_, hver⟩
   · simp only [dispatch, hp, dispatchUdp, if_neg hcond, hsub, if_neg hpl, hpriv, if_true,
       dispatchUdpRaw, hfl, hfd, hv, Bool.and_false, Bool.false_eq_true, if_false, hm, R.pure_eq, R.bind_ok]
-  · rw [decodeUDP_udpPkt _ _ _ _ h3 h4 (by omega) (by simp; omega)]; simp
+  · have hnz := makeUdp_nonzero6 c hv _ _ _ _ _ hm
+    unfold decodeUDP6
+    rw [decodeUDP_udpPkt _ _ _ _ h3 h4 (by omega) (by simp; omega)]; simp [hnz]
 
 /-- **UDP / IPv6 / raw socket, Dublin.**  The payload is the magic prefix followed by
 `sequence − initial_sequence` pattern octets: the sequence is `initial + (payload length − 6)`.
@@ -251,7 +258,7 @@ theorem udp_v6_dublin (c : ChanCfg) (hc : c.AddrOk) (hv : c.v6 = true) (hp : c.p
         .sendTo (udpPkt p.srcPort p.destPort ck payload) c.dst 0] ∧
       payload = Consts.net6_MAGIC ++ List.replicate (p.seq - c.initialSeq) c.pattern ∧
       c.initialSeq + (payload.length - 6) = p.seq ∧
-      decodeUDP (udpPkt p.srcPort p.destPort ck payload) =
+      decodeUDP6 (udpPkt p.srcPort p.destPort ck payload) =
         some ({ srcPort := p.srcPort, dstPort := p.destPort, length := 8 + payload.length,
                 checksum := ck }, payload) ∧
       verifies (pseudoHdr c 17 (8 + payload.length) ++ udpPkt p.srcPort p.destPort ck payload) := by
@@ -273,15 +280,20 @@ theorem udp_v6_dublin (c : ChanCfg) (hc : c.AddrOk) (hv : c.v6 = true) (hp : c.p
     simp only [dispatch, hp, dispatchUdp, if_neg hcond, hsub, if_neg hpl, hpriv, if_true,
       dispatchUdpRaw, hfl, hfd, hv, Bool.and_true, Bool.false_eq_true, if_false, hsub',
       R.pure_eq, R.bind_ok, if_neg hfit, hm]
-  · rw [decodeUDP_udpPkt _ _ _ _ h3 h4 (by omega) (by rw [hplen]; omega)]
+  · have hnz := makeUdp_nonzero6 c hv _ _ _ _ _ hm
+    unfold decodeUDP6
+    rw [decodeUDP_udpPkt _ _ _ _ h3 h4 (by omega) (by rw [hplen]; omega)]; simp [hnz]
 
-/-- **UDP / IPv6 / raw socket, Paris.** -/
+/-- **UDP / IPv6 / raw socket, Paris.**  The checksum field *is* the sequence number, so the
+datagram is a valid UDP/IPv6 datagram (RFC 8200 §8.1: checksum ≠ 0) exactly when the sequence is
+not 0: hypothesis `hseq0`.  Sequence 0 is reachable only with `--initial-sequence 0` (first probe
+of a round); `udp_v6_paris_sequence_zero` shows the hypothesis cannot be dropped. -/
 theorem udp_v6_paris (c : ChanCfg) (hc : c.AddrOk) (hv : c.v6 = true) (hp : c.proto = .udp)
     (hpriv : c.privileged = true) (hsz : 48 ≤ c.packetSize ∧ c.packetSize ≤ 1024)
-    (p : Strat.Probe) (hpr : ProbeOk p) (hfl : isParis p.flags = true) :
+    (p : Strat.Probe) (hpr : ProbeOk p) (hfl : isParis p.flags = true) (hseq0 : p.seq ≠ 0) :
     ∃ ck, dispatch c p = .ok [.setHops p.ttl,
         .sendTo (parisPkt p.srcPort p.destPort p.seq ck) c.dst 0] ∧
-      decodeUDP (parisPkt p.srcPort p.destPort p.seq ck) =
+      decodeUDP6 (parisPkt p.srcPort p.destPort p.seq ck) =
         some ({ srcPort := p.srcPort, dstPort := p.destPort, length := 10, checksum := p.seq },
               [hi ck, lo ck]) ∧
       verifies (pseudoHdr c 17 10 ++ parisPkt p.srcPort p.destPort p.seq ck) := by
@@ -289,9 +301,52 @@ theorem udp_v6_paris (c : ChanCfg) (hc : c.AddrOk) (hv : c.v6 = true) (hp : c.pr
   obtain ⟨hcond, hsub, hpl, hbuf⟩ := udp_cond6 c hv hsz
   obtain ⟨ck, hck, hm, hdu, hver⟩ :=
     paris_checksum_is_sequence_and_verifies c hc p.srcPort p.destPort p.seq h3 h4 h1
-  refine ⟨ck, ?_, hdu, hver⟩
-  simp only [dispatch, hp, dispatchUdp, if_neg hcond, hsub, if_neg hpl, hpriv, if_true,
-    dispatchUdpRaw, hfl, hv, hm, R.pure_eq, R.bind_ok, if_true]
+  refine ⟨ck, ?_, ?_, hver⟩
+  · simp only [dispatch, hp, dispatchUdp, if_neg hcond, hsub, if_neg hpl, hpriv, if_true,
+      dispatchUdpRaw, hfl, hv, hm, R.pure_eq, R.bind_ok, if_true]
+  · unfold decodeUDP6; rw [hdu]; simp [hseq0]
+
+/-- **Known residual (Paris / IPv6 / sequence 0).**  With the Paris strategy the UDP checksum
+field carries the sequence number by design; for sequence 0 the model — like the code — puts
+0x0000 in the checksum field of a UDP/IPv6 datagram, which RFC 8200 §8.1 declares invalid
+(`decodeUDP6 = none`), for every configuration, port pair and TTL.  Hence `hseq0` in
+`udp_v6_paris` is necessary. -/
+theorem udp_v6_paris_sequence_zero (c : ChanCfg) (hc : c.AddrOk) (hv : c.v6 = true)
+    (hp : c.proto = .udp) (hpriv : c.privileged = true)
+    (hsz : 48 ≤ c.packetSize ∧ c.packetSize ≤ 1024)
+    (p : Strat.Probe) (hpr : ProbeOk p) (hfl : isParis p.flags = true) (hseq0 : p.seq = 0) :
+    ∃ ck, dispatch c p = .ok [.setHops p.ttl,
+        .sendTo (parisPkt p.srcPort p.destPort 0 ck) c.dst 0] ∧
+      (parisPkt p.srcPort p.destPort 0 ck).drop 6 = [0, 0, hi ck, lo ck] ∧
+      decodeUDP6 (parisPkt p.srcPort p.destPort 0 ck) = none := by
+  obtain ⟨h1, h2, h3, h4, h5⟩ := hpr
+  obtain ⟨hcond, hsub, hpl, hbuf⟩ := udp_cond6 c hv hsz
+  obtain ⟨ck, hck, hm, hdu, hver⟩ :=
+    paris_checksum_is_sequence_and_verifies c hc p.srcPort p.destPort p.seq h3 h4 h1
+  rw [hseq0] at hm hdu
+  refine ⟨ck, ?_, ?_, ?_⟩
+  · simp only [dispatch, hp, dispatchUdp, if_neg hcond, hsub, if_neg hpl, hpriv, if_true,
+      dispatchUdpRaw, hfl, hv, hseq0, hm, R.pure_eq, R.bind_ok, if_true]
+  · simp [parisPkt, hi, lo]
+  · unfold decodeUDP6; rw [hdu]; simp
+
+/-- concrete witness of the same: fd00::1 → fd00::7, ports 5000 → 33434, sequence 0 -/
+theorem udp_v6_paris_sequence_zero_witness :
+    ∃ ck, makeUdpParis
+        { v6 := true, src := [0xfd, 0, 0, 0, 0, 0, 0, 0, 0, 0, 0, 0, 0, 0, 0, 1],
+          dst := [0xfd, 0, 0, 0, 0, 0, 0, 0, 0, 0, 0, 0, 0, 0, 0, 7], packetSize := 84,
+          pattern := 0, privileged := true, tos := 0, proto := .udp, extEnabled := false,
+          initialSeq := 0 } 5000 33434 0 =
+        .ok [0x13, 0x88, 0x82, 0x9a, 0, 10, 0, 0, hi ck, lo ck] ∧
+      decodeUDP6 [0x13, 0x88, 0x82, 0x9a, 0, 10, 0, 0, hi ck, lo ck] = none := by
+  obtain ⟨ck, _, hm, _, _⟩ := makeUdpParis_spec
+    { v6 := true, src := [0xfd, 0, 0, 0, 0, 0, 0, 0, 0, 0, 0, 0, 0, 0, 0, 1],
+      dst := [0xfd, 0, 0, 0, 0, 0, 0, 0, 0, 0, 0, 0, 0, 0, 0, 7], packetSize := 84,
+      pattern := 0, privileged := true, tos := 0, proto := .udp, extEnabled := false,
+      initialSeq := 0 } (by decide) 5000 33434 0
+  refine ⟨ck, ?_, ?_⟩
+  · rw [hm]; simp [parisPkt, hi, lo]
+  · simp [decodeUDP6, decodeUDP, u16]
 
 /-- **UDP, unprivileged** (both families): a fresh datagram socket bound to the source address and
 the probe's source port, TTL / hop limit and (IPv4) TOS set from the probe and the configuration,
@@ -466,6 +521,8 @@ end TV.Props.C11
 #print axioms TV.Props.C11.udp_v6_raw
 #print axioms TV.Props.C11.udp_v6_dublin
 #print axioms TV.Props.C11.udp_v6_paris
+#print axioms TV.Props.C11.udp_v6_paris_sequence_zero
+#print axioms TV.Props.C11.udp_v6_paris_sequence_zero_witness
 #print axioms TV.Props.C11.udp_unprivileged
 #print axioms TV.Props.C11.tcp
 #print axioms TV.Props.C11.size_out_of_range
